@@ -39,6 +39,12 @@ CLAIMED.update({
                 note="Trusted: z3; CPython hash(float)/hash(bytes) modelled by their documented contracts; composite hashes argued from component consistency. Int payload ranges [-8,8] quick / [-40,40] thorough where the C-level hash must concretise."),
 })
 
+CLAIMED.update({
+    "C01": dict(cat="other", design="DESIGN.md §4 C01",
+                text="Inductive step on a symbolic heap (M2): a bounded inventory of real Operation/Block/Region/SSAValue/Use objects is wired by symbolic references constrained only by the representation invariant (doubly linked acyclic op/block lists, parent pointers, intrusive use lists matching operand/successor slots, argument/result indices); each public mutation entry point (Block/Region/Operation/SSAValue/OpOperands/Rewriter, 32 calls) runs on a symbolic receiver and symbolic arguments and z3 decides that the invariant holds in the post-state for EVERY valid pre-state. Covers edit histories of any length within the inventory bound.",
+                note="Trusted: z3, the invariant formula in vx/checks/c01.py, the SymRef heap model (vx/symheap.py). Bounds: 3 ops (2/1/0 operand slots, one successor slot, one owned region), 2 blocks, 2 regions quick; 4 ops/3 blocks thorough. Outside: state left by calls that raise, nested erasure, Operation.drop_all_references alone, PatternRewriter wrappers."),
+})
+
 NOT_APPLICABLE = {
     "C05": "custom assembly formats: the quantifier is over ~80 dialects' op definitions/format programs; no data dimension for a solver beyond what C04/C06 cover for leaves (DESIGN §5)",
     "C17": "pass x corpus-module cross product: deciding it means running each pair concretely; no symbolic dimension (DESIGN §5)",
